@@ -13,11 +13,13 @@ samples it retains, so "a quantile lies within the sketch's relative error of a 
 -/
 import MetricsVerif.Proofs.Histogram
 import MetricsVerif.Proofs.DistBuilder
+import MetricsVerif.Proofs.DistExpose
 import MetricsVerif.Proofs.Rolling
 import MetricsVerif.Generated.SourceFacts
 
 namespace MetricsVerif.C15
 open MetricsVerif.Histogram MetricsVerif.Rolling MetricsVerif.Prom MetricsVerif.PromFmt MetricsVerif.DistBuilder
+open MetricsVerif.PromRender
 
 /-! ## (a) buckets -/
 
@@ -269,6 +271,145 @@ theorem type_iff_buckets_apply (cfg : Cfg) (name : Str) :
         | false => rfl
         | true => have := hfind.mp ha; rw [hf] at this; cases this
       simp [Dist.isHist, this]
+
+/-! ### the whole recorder: under which family name and type a histogram name is exposed -/
+
+/-- the distribution part of `Inner::render`: after the counter and gauge families, one family per entry of the
+    (drained) distribution map, whose `# TYPE` is `get_distribution_type` of the map's key — the PLAIN sanitised name — while
+    only `renderFamily` (= `family_name`) sees the described unit -/
+theorem render_distribution_families (s0 : St) :
+    ∃ pre, (renderLines s0).2 = pre ++ (drain s0).dists.map (fun f =>
+      renderFamily s0.cfg.unitSuffix f.1 (lookup (drain s0).descs f.1) (distType s0.cfg f.1)
+        (f.2.map (fun ld => distSeries s0.cfg.quantiles ld.1 ld.2))) :=
+  ⟨_, rfl⟩
+
+/-- the `# TYPE` line of a rendered family carries exactly the type it was given, under the family name `name` +
+    unit suffix (the suffix only when unit suffixes are enabled and the name was described with a unit) -/
+theorem render_family_type_line (us : Bool) (name : Str) (desc : Option (Str × Option MUnit)) (ty : Str)
+    (series : List Series) :
+    Line.type (familyName name (match desc with | some (_, u) => if us then u else none | none => none)) ty
+      ∈ renderFamily us name desc ty series := by
+  unfold renderFamily
+  cases desc with
+  | none => simp
+  | some du => obtain ⟨d, u⟩ := du; simp
+
+/-- **exposed_type_iff_buckets_apply**: for EVERY configuration and EVERY history of describe / record / upkeep / render
+    operations (any units, unit suffixes on or off, descriptions before or after the first drain, any number of label
+    sets), every distribution `ld` of every family `f` the recorder renders satisfies: the family's `# TYPE` is
+    `histogram` exactly when `ld` is a histogram (is rendered as `_bucket` lines), `summary` exactly when it is a summary
+    (quantile lines), and it is a histogram exactly when an override matches the plain sanitised name or global buckets
+    are set.  The type line and the series of a family can never disagree. -/
+theorem exposed_type_iff_buckets_apply (cfg : Cfg) (ops : List Op) :
+    ∀ f ∈ (drain (run { cfg := cfg } ops)).dists, ∀ ld ∈ f.2,
+      (distType cfg f.1 = "histogram".toList ↔ isHist ld.2 = true)
+      ∧ (distType cfg f.1 = "summary".toList ↔ isHist ld.2 = false)
+      ∧ (isHist ld.2 = true ↔ (cfg.overrides.any (fun mb => mb.1.matches f.1) = true ∨ cfg.buckets.isSome = true)) := by
+  intro f hf ld hld
+  have hinv : KindInv cfg (drain (run { cfg := cfg } ops)).dists := by
+    have h0 : KindInv ({ cfg := cfg } : St).cfg ({ cfg := cfg } : St).dists := by intro f hf; cases hf
+    have h1 := run_kind ops _ h0
+    have h2 := drain_kind _ h1
+    rw [drain_cfg, run_cfg] at h2
+    exact h2
+  have hk := hinv f hf ld hld
+  have same : ∀ d : Dist, isHist d = Dist.isHist d := by intro d; cases d <;> rfl
+  obtain ⟨t1, t2, t3⟩ := type_iff_buckets_apply cfg f.1
+  rw [hk, same]
+  refine ⟨t1, ?_, t2⟩
+  constructor
+  · intro hs
+    cases hb : Dist.isHist (newDist cfg f.1) with
+    | false => rfl
+    | true =>
+      have := t1.mpr hb
+      rw [hs] at this
+      exact absurd this (by decide)
+  · intro hb
+    rcases t3 with h | h
+    · have := t1.mp h; rw [hb] at this; cases this
+    · exact h
+
+/-- neither the type nor the distribution of an exposed histogram name depends on the unit it was described with or on
+    the unit-suffix switch; only the family name does -/
+theorem exposed_ignores_unit (us : Bool) (global : Option (List Int)) (calls : List (Matcher × List Int)) (name : Str)
+    (unit : Option MUnit) :
+    exposedFor us global calls name unit
+      = (familyName (sanitizeMetricName name) (if us then unit else none), typeFor global calls name,
+         distributionFor global calls name) := rfl
+
+/-- **builder_never_builds_empty_histogram**: if every `set_buckets_for_metric` call of a chain was accepted (and the
+    global buckets, if any, passed `set_buckets`), the override map is the one `overridesOf` models, every call had a
+    non-empty bound list, and no name ever gets a histogram with an empty bound list — `Distribution::new_histogram`'s
+    `expect("buckets should never be empty")` cannot fire in the drain. -/
+theorem builder_never_builds_empty_histogram (global : Option (List Int)) (hg : ∀ bs, global = some bs → setBucketsChecked bs = some bs)
+    (calls : List (Matcher × List Int)) (ovs : List (Matcher × List Int)) (h : overridesOfChecked calls = some ovs)
+    (name : Str) :
+    ovs = overridesOf calls ∧ (∀ c ∈ calls, c.2 ≠ [])
+    ∧ (∀ bs cs n sm, distributionFor global calls name = .hist bs cs n sm → bs ≠ [] ∧ (Hist.new (bs.map FV.fin)).isSome = true) := by
+  obtain ⟨e, h1, h2⟩ := foldlM_checked calls [] ovs (by simp) h
+  refine ⟨e, h2, ?_⟩
+  intro bs cs n sm hd
+  have hne : bs ≠ [] := by
+    have p := precedence (overridesOf calls) (cfgOf global calls) rfl (sanitizeMetricName name)
+    cases hf : (cfgOf global calls).overrides.find? (fun mb => mb.1.matches (sanitizeMetricName name)) with
+    | some mb =>
+      obtain ⟨hm, _, _, hnd⟩ := p.1 mb hf
+      have : distributionFor global calls name = freshHist mb.2 := hnd
+      rw [this] at hd
+      simp only [freshHist, Dist.hist.injEq] at hd
+      rw [← hd.1]
+      exact h1 mb (by rw [e]; exact hm)
+    | none =>
+      have hnd := (p.2 hf).2
+      have : distributionFor global calls name = (match (cfgOf global calls).buckets with | some bs => freshHist bs | none => .summ 0 0) := hnd
+      rw [this] at hd
+      cases hgl : global with
+      | none => simp [cfgOf, hgl] at hd
+      | some gb =>
+        simp only [cfgOf, hgl, freshHist, Dist.hist.injEq] at hd
+        rw [← hd.1]
+        have := hg gb hgl
+        intro hnil
+        rw [hnil] at this
+        simp [setBucketsChecked, guardNonEmpty] at this
+  refine ⟨hne, ?_⟩
+  unfold Hist.new
+  cases bs with
+  | nil => exact absurd rfl hne
+  | cons b bs => simp
+
+/-- the guards as coded -/
+theorem src_builder_guards :
+    Generated.c15_builder_guards
+      = ["set_quantiles: if quantiles.is_empty() { return Err(BuildError::EmptyBucketsOrQuantiles); }",
+         "set_bucket_duration: if value.is_zero() { return Err(BuildError::ZeroBucketDuration); }",
+         "set_buckets: if values.is_empty() { return Err(BuildError::EmptyBucketsOrQuantiles); }",
+         "set_buckets_for_metric: if values.is_empty() { return Err(BuildError::EmptyBucketsOrQuantiles); }"]
+    ∧ guardNonEmpty 0 = false ∧ guardDuration 0 = false ∧ (∀ n, guardNonEmpty (n + 1) = true) := by
+  refine ⟨by decide, rfl, rfl, fun n => by simp [guardNonEmpty]⟩
+
+/-- the two decision sites of the recorder, and the loops they run, as modelled: the drain asks `get_distribution` with the
+    name `key_to_parts` returned; `render` asks `get_distribution_type` with the map key BEFORE `family_name` shadows `name`;
+    both walk the sorted overrides in order and take the first `matcher.matches(name)`; `Matcher::matches` is equality /
+    `starts_with` / `ends_with`; `RollingSummary::add` truncates to `max_buckets - 1` before inserting one bucket -/
+theorem src_exposure_sites :
+    Generated.c15_drain_get_distribution = "self.distribution_builder.get_distribution(name.as_str())"
+    ∧ Generated.c15_render_dist_loop_lets
+        = ["(desc, unit) = self.describe_family(&descriptions, name.as_str())",
+           "distribution_type = self.distribution_builder.get_distribution_type(name.as_str())",
+           "name = family_name(name, unit)"]
+    ∧ Generated.c15_get_distribution_loop
+        = "for (matcher, buckets) in overrides { if matcher.matches(name) { return Distribution::new_histogram(buckets); } }"
+    ∧ Generated.c15_get_distribution_type_loop
+        = "for (matcher, _) in overrides { if matcher.matches(name) { return \"histogram\"; } }"
+    ∧ Generated.c15_matcher_matches_arms
+        = ["Matcher::Prefix(prefix) => key.starts_with(prefix)", "Matcher::Suffix(suffix) => key.ends_with(suffix)",
+           "Matcher::Full(full) => key == full"]
+    ∧ Generated.c15_rolling_add_truncate = "self.buckets.truncate(self.max_buckets - 1);"
+    ∧ Generated.c15_rolling_new_vec = "Vec::with_capacity(max_buckets)"
+    ∧ Generated.c15_render_hist_arm_loop = "for (le, count) in histogram.buckets()"
+    ∧ Generated.c15_render_quantile_value = "snapshot.quantile(quantile.value()).unwrap_or(0.0)" := by decide
 
 /-- `set_buckets_for_metric` keys the override map by the SANITISED matcher: every key `get_distribution` ever sees is
     the sanitised form of a pattern that was given -/
@@ -664,6 +805,31 @@ example :
     ∧ distributionFor none calls ['o'] = .summ 0 0
     ∧ typeFor none calls ['o'] = "summary".toList
     ∧ typeFor none calls ['x','.','m','s'] = "histogram".toList := by decide
+
+-- exposure: `request_latency` described in seconds, unit suffixes on, a Full override of the plain name and a Suffix
+-- override `_seconds`: exposed as the HISTOGRAM family `request_latency_seconds` with the Full override's bounds, while
+-- `queue_wait` (no override matches the plain name) is the SUMMARY family `queue_wait_seconds` — deciding on the exposed
+-- family name instead would give the opposite answer for both
+example :
+    let calls : List (Matcher × List Int) :=
+      [(.full ['r','e','q','u','e','s','t','_','l','a','t','e','n','c','y'], [1, 2]), (.sfx ['_','s','e','c','o','n','d','s'], [3])]
+    let rl := ['r','e','q','u','e','s','t','_','l','a','t','e','n','c','y']
+    let qw := ['q','u','e','u','e','_','w','a','i','t']
+    exposedFor true none calls rl (some .seconds) = (rl ++ "_seconds".toList, "histogram".toList, freshHist [1, 2])
+    ∧ exposedFor true none calls qw (some .seconds) = (qw ++ "_seconds".toList, "summary".toList, .summ 0 0)
+    ∧ exposedFor false none calls rl (some .seconds) = (rl, "histogram".toList, freshHist [1, 2])
+    ∧ distType (cfgOfU true none calls) (qw ++ "_seconds".toList) = "histogram".toList
+    ∧ overridesOfChecked calls = some (overridesOf calls)
+    ∧ overridesOfChecked (calls ++ [(.pfx ['a'], [])]) = none := by decide
+
+-- the invariant is about a state that is really reached: describe, record under two label sets, render
+example :
+    let cfg := cfgOfU true none [(.full ['a'], [5])]
+    let ka : MKey := ⟨['a'], []⟩
+    let kb : MKey := ⟨['a'], [(['h'], ['1'])]⟩
+    let s := drain (run { cfg := cfg } [.describe ['a'] (some .bytes) ['d'], .hrec ka 3, .upkeep, .hrec kb 7, .hrec ka 9])
+    s.dists.map (fun f => (f.1, f.2.map (fun ld => ld.2)))
+      = [(['a'], [.hist [5] [1] 2 12, .hist [5] [0] 1 7])] := by decide
 
 -- (c) 2 buckets of 10: samples at 4, 14, 23, 24; at now = 24 the sample of t = 4 is gone (and the +∞ was never
 -- retained, the NaN is), at now = 34 the bucket [14, 24) has left the window, at now = 44 everything has
